@@ -106,3 +106,6 @@ func VerifSendErrorDetails(e *SendError) ([]string, int) {
 	}
 	return e.rcpt, len(e.errlist)
 }
+
+// VerifFormatAddress exposes formatAddress.
+func VerifFormatAddress(name, addr string) string { return formatAddress(name, addr) }
